@@ -402,11 +402,11 @@ func c05(c *Ctx) {
 			if !c.Expect(hdr != nil && len(hdr.Succs) == 2, rd, f, d.fn+":read-loop", "the reader is not called in a loop over the remaining count") {
 				continue
 			}
-			cond, _ := hdr.Instrs[len(hdr.Instrs)-1].(*ssa.If).Cond.(*ssa.BinOp)
-			if !c.Expect(cond != nil, rd, f, d.fn+":remaining-test", "the loop is not controlled by the remaining count") {
+			_, remV, _, isC := cmpOf(hdr.Instrs[len(hdr.Instrs)-1].(*ssa.If).Cond)
+			if !c.Expect(isC, rd, f, d.fn+":remaining-test", "the loop is not controlled by the remaining count") {
 				continue
 			}
-			remaining := func(v ssa.Value) bool { return v == cond.X }
+			remaining := func(v ssa.Value) bool { return v == remV }
 			// success only from the loop's own exit
 			for _, r := range returnsOf(f) {
 				if r.Block() == f.Recover {
